@@ -150,3 +150,18 @@ Print Assumptions C15_reject_iff_after_repair.
 Print Assumptions C15_infallible_iff_total.
 Print Assumptions C15_device_accept_iff.
 Print Assumptions C15_device_reject_site.
+
+(* ---- whole pipeline: every inline enum of a definition the whole generator accepts passes the analysis, and
+   (field width below 127 bits) is outside the property's reject class ---- *)
+From DD Require Pipeline PipelineProofs Names.
+Theorem C15_whole_pipeline_accept : forall fuel dev_name d0,
+  Pipeline.pipeline_result fuel dev_name d0 = "ok"%string ->
+  Forall (fun s => enum_check_fixed (s_obj s) (f_name (s_field s)) (s_width s) (s_enum s) (s_try s) = VOk
+                   /\ (0 <= s_width s < 127 -> ~ spec_reject (s_width s) (e_variants (s_enum s)) (s_try s)))
+         (enum_sites (Names.names_normalized d0)).
+Proof.
+  intros fuel dev_name d0 H. apply PipelineProofs.pipeline_result_ok_iff in H.
+  exact (PipelineProofs.pipeline_accept_enums _ _ _ H).
+Qed.
+
+Print Assumptions C15_whole_pipeline_accept.
